@@ -536,7 +536,7 @@ class BuiltinMixin:
         fr.effects.append((what, getattr(node, "lineno", 0)))
 
     # ------------------------------------------------------------------ spec-only functions (contract language)
-    SPEC_ONLY = {"card", "implies", "iff", "forall", "exists", "subset", "set_eq", "old", "is_class", "keys_of",
+    SPEC_ONLY = {"card", "implies", "iff", "forall", "exists", "subset", "set_eq", "old", "is_class", "keys_of", "unchanged_except",
                  "ty_is", "same_class", "unchanged", "fresh_obj", "no_effects", "effects", "attr", "sel", "tuple2", "sval", "ival",
                  "local", "list_subset", "list_subset_except", "attr_bool", "dict_values", "word_only", "digit_start", "box_str", "tail", "type_arg", "type_args", "sub_accepts", "attr_set", "accepts", "matches", "is_json", "as_set_of", "distinct", "cls_name", "clsattr", "written_text", "opened_path", "ext", "box_bool", "tl_get", "raw_tq_ok", "is_blank", "attr_of", "eq_str", "mro_of", "as_dict", "as_list", "as_set", "seq_len", "dict_len", "truthy", "dict_get", "pyeval_str", "at", "is_none"}
     SPEC_CONSTS = {}
@@ -703,6 +703,16 @@ class BuiltinMixin:
             o = self.box(self.ev(node.args[1], st, fr))
             return SV(z3.Select(cur, o) == z3.Select(old, o), "bool")
         return SV(cur == old, "bool")
+
+    def bi_unchanged_except(self, node, st, fr):
+        """unchanged_except('attr', o1, o2, ...): the heap array of attr agrees with the pre-state everywhere but at the listed objects"""
+        attr = ast.literal_eval(node.args[0])
+        cur = self.heap_get(st, attr)
+        old = self.heap_get(fr.old_state, attr) if fr.old_state is not None else self.heap0(attr, 0)
+        objs = [self.box(self.ev(a, st, fr)) for a in node.args[1:]]
+        x = self.bv("ux")
+        return SV(z3.ForAll([x], z3.Implies(z3.And([x != o for o in objs]) if objs else z3.BoolVal(True), z3.Select(cur, x) == z3.Select(old, x)),
+                            patterns=[z3.Select(cur, x)]), "bool")
 
     def mro_term(self, cls_term):
         v = self.voc
